@@ -537,3 +537,40 @@ package restful
 
 // package variable: the provider is never nil (set in init, SetCompressorProvider refuses nil)
 //@ global invariant provider: currentCompressorProvider != nil
+
+// ---------------------------------------------------------------------------
+// RouterJSR311.detectRoute: staged elimination shared by both routers (C01, C02)
+
+//@ func (RouterJSR311).detectRoute
+//@ props C01 C02 C17 C18
+//@ requires req: httpRequest != nil
+//@ requires lists: forall(0, len(routes), func(k int) bool { return wfRouteLists(routes[k]) })
+//@ ensures sound: result0 != nil ==> result1 == nil && candOK(result0, routes, httpRequest, 3)
+//@ ensures error: result0 == nil ==> result1 != nil
+//@ modifies nothing
+//@ nopanic
+//@ opt opaque ctAdmits acceptAdmits noEmptyEntry
+//@ loop 0 invariant fresh: fresh(candidates) && len(candidates) <= it_i
+//@ loop 0 invariant sound: forall(0, len(candidates), func(j int) bool { return candOK(candidates[j], routes, httpRequest, 0) })
+//@ loop 1 invariant conds: ok == forall(0, it_i, func(j int) bool { return each.If[j](httpRequest) })
+// method stage (in-place filter over the same backing array)
+//@ loop 2 invariant array: fresh(previous) && sameStart(candidates, previous) && cap(candidates) == cap(previous) && len(candidates) <= it_i
+//@ loop 2 invariant sound: forall(0, len(candidates), func(j int) bool { return candOK(candidates[j], routes, httpRequest, 1) })
+//@ loop 2 invariant untouched: forall(len(candidates), len(previous), func(j int) bool { return candOK(previous[j], routes, httpRequest, 0) })
+// 405: collecting the allowed methods
+//@ loop 3 invariant fresh: fresh(allowed)
+//@ loop 3 invariant previous: forall(0, len(previous), func(j int) bool { return ptrInto(previous[j], routes) })
+//@ loop 4 invariant fresh: fresh(allowed)
+//@ loop 4 invariant previous: forall(0, len(previous), func(j int) bool { return ptrInto(previous[j], routes) })
+// content-type stage
+//@ loop 5 invariant array: fresh(previous) && sameStart(candidates, previous) && cap(candidates) == cap(previous) && len(candidates) <= it_i
+//@ loop 5 invariant sound: forall(0, len(candidates), func(j int) bool { return candOK(candidates[j], routes, httpRequest, 2) })
+//@ loop 5 invariant untouched: forall(len(candidates), len(previous), func(j int) bool { return candOK(previous[j], routes, httpRequest, 1) })
+// accept stage
+//@ loop 6 invariant array: fresh(previous) && sameStart(candidates, previous) && cap(candidates) == cap(previous) && len(candidates) <= it_i
+//@ loop 6 invariant sound: forall(0, len(candidates), func(j int) bool { return candOK(candidates[j], routes, httpRequest, 3) && accept == acceptOf(httpRequest) })
+//@ loop 6 invariant untouched: forall(len(candidates), len(previous), func(j int) bool { return candOK(previous[j], routes, httpRequest, 2) })
+//@ loop 6 invariant accept: accept == acceptOf(httpRequest)
+// 406/415: collecting the available representations
+//@ loop 7 invariant fresh: fresh(available)
+//@ loop 7 invariant previous: forall(0, len(previous), func(j int) bool { return ptrInto(previous[j], routes) })
